@@ -224,7 +224,8 @@ def run(res):
     finally:
         _sys.setswitchinterval(old_si)
         _sys.stdout = real_stdout
-    par_ans = dict(seq_ans, **par_bad)
+    par_ans = dict(seq_ans)
+    par_ans.update(par_bad)
     tbad = sorted(par_bad)
     for j in tbad[:2]:
         violations.append(('queried from 4 threads at once, %s on structure #%d answers %s; alone it answers %s'
